@@ -22,7 +22,7 @@ ASSUMPTIONS = ["spec/iec62386_tables.py lists every command of the implemented p
                "instance maps are real DeviceInstanceTypeMapper objects resolving every (address, instance) to one type"]
 EXHAUSTIVE = {"quick": False, "thorough": True}
 REQUIRED_ANCHORS = {"all": ["decoded16", "decoded24", "decoded_event", "decoded_other_len", "order_passes",
-                            "fingerprints_compared", "generic_checked", "map_history_decodes"]}
+                            "fingerprints_compared", "generic_checked", "map_history_decodes", "retained_results_checked"]}
 SHARD_TIMEOUT = {"quick": 600, "thorough": 3000}
 
 QUICK_DTS = [0, 1, 4, 5, 6, 8, 2, 3, 7, 254, 255]
@@ -190,15 +190,32 @@ def generic_expected(cx, n, v, dt, mapname):
     return cx.Command
 
 
+PRIMERS = [(16, 0xC100 + n) for n in (1, 2, 3, 4, 5, 6, 7, 8, 0, 255, 17)] + \
+          [(16, 0xA300), (16, 0xC355), (16, 0xC5AA), (16, 0xA500), (16, 0xA100), (16, 0xBD00),
+           (24, 0xC13001), (24, 0xC10000), (24, 0xC1017F), (24, 0xC50102), (24, 0xFFFE1E)]
+
+
 def run_block(cx, res, cases, seed, tag, anchor, light=False, block_key=None):
     """cases: list of (n, v, dt, mapname).  Three decode orders, digests compared per case."""
     dig = [None] * len(cases)
+    kept = []          # decoded objects stay alive: a later decode must not change what an earlier one returned
     for i, (n, v, dt, mp) in enumerate(cases):
         out = decode_check(cx, res, n, v, dt, mp, True)
         res.evaluations += 1
         if out is None:
             continue
         dig[i], r = out
+        kept.append((r, n, v, dt, mp))
+        if len(kept) >= 24 or i + 1 == len(cases):
+            for (r0, n0, v0, dt0, mp0) in kept:
+                if _fi(r0) != (n0, v0):
+                    res.violation(f"C01/earlier-result-changed/{type(r0).__name__}",
+                                  f"the {type(r0).__name__} decoded from {v0:#x} ({n0} bits) reads {_fi(r0)!r} after later frames were "
+                                  "decoded: results of different decodes share state",
+                                  {"len": n0, "frame": v0, "dt": dt0, "map": mp0})
+                    break
+            res.hit("retained_results_checked", len(kept))
+            kept = []
         want = generic_expected(cx, n, v, dt, mp)
         if want is not None:
             res.hit("generic_checked")
@@ -242,6 +259,13 @@ def run_block(cx, res, cases, seed, tag, anchor, light=False, block_key=None):
                 gg.EnableDeviceType(k % 256)
         except Exception:
             pass  # judged where these frames are the subject
+        # the immediately preceding decode is a frame that sets context *on the bus* (ENABLE DEVICE TYPE n, DTRs,
+        # INITIALISE ...): a decoder is a function of its arguments and must not remember it
+        try:
+            pn, pv = PRIMERS[k % len(PRIMERS)]
+            cx.from_frame(cx.FF(pn, pv), 0, cx.maps[mapnames[0]])
+        except Exception:
+            pass
         d = decode_check(cx, res, n, v, dt, mp, False)
         if d != dig[i] and dig[i] is not None:
             res.violation("C01/order-dependent/interleaved",
